@@ -441,6 +441,9 @@ def record (d : Decl) (reason : Option VroEnt) (s : St) : St :=
                                recs := aset s.env.recs d.name d.ver },
            already := aset s.already d.name (d, reason) }
 
+/-- `PROD_DIR = none`: the directory of a product declared without one -/
+def noneDir : Str := [110, 111, 110, 101]
+
 /-- the setup half of `Eups.setup` once resolution has chosen `d` (and `register` has run): skip if already set
 up, unsetup the set-up version, write the records, run the table -/
 def install (rec : Rec) (cfg : Cfg) (depth : Nat) (noRec : Bool) (vro : List VroEnt) (d : Decl)
@@ -448,7 +451,7 @@ def install (rec : Rec) (cfg : Cfg) (depth : Nat) (noRec : Bool) (vro : List Vro
   match setupProd cfg.db s.env d.name with
   | none => acts rec cfg true depth noRec vro d (d.actions cfg.exact) (record d reason s)
   | some sd =>
-    if (sd.ver.1 == d.ver.1 || sd.dir == d.dir) && decide (depth > 0) then .ok s
+    if (sd.ver.1 == d.ver.1 || (sd.dir == d.dir && d.dir != noneDir)) && decide (depth > 0) then .ok s
     else
       -- unsetupSetupProduct (at the same depth, so that max_depth keeps counting from the request);
       -- its outcome is not looked at
